@@ -7,7 +7,7 @@ Which handler runs for a given failure is not decided.
 """
 from ..facts import callee, op_place, strip_generics
 from ..flow import Defs, backward_slice, slice_calls
-from .chains_common import chain_snapshots, chain_always_pushed, scope_lookup_shape, concrete_before_templated, A
+from .chains_common import chain_snapshots, chain_always_pushed, scope_lookup_shape, concrete_before_templated, own_scope_everywhere, A
 from .compiler_common import PX
 
 LEVEL = 'other'
@@ -120,6 +120,7 @@ def r3_lookup(ctx):
              'handlers) always falls through to its parents.')
     scope_lookup_shape(ctx, 'C06.R3', A + 'error_handlers::ErrorHandlersDb::get_or_try_bind', A + 'error_handlers::ErrorHandlersInScope::get_or_try_bind')
     concrete_before_templated(ctx, 'C06.R3', A + 'error_handlers::ErrorHandlersInScope::get_or_try_bind', A + 'error_handlers::ErrorHandlersInScope::get')
+    own_scope_everywhere(ctx, 'C06.R3')
 
 
 def r4_observer_snapshots(ctx):
